@@ -1420,10 +1420,15 @@ mzd_t *mzd_concat(mzd_t *C, mzd_t const *A, mzd_t const *B) {
     m4ri_die("mzd_concat: C has wrong dimension!\n");
   }
 
+  word const mask_a = A->high_bitmask;
   for (rci_t i = 0; i < A->nrows; ++i) {
     word *dst_truerow = mzd_row(C, i);
     word const *src_truerow = mzd_row_const(A, i);
-    for (wi_t j = 0; j < A->width; ++j) { dst_truerow[j] = src_truerow[j]; }
+    for (wi_t j = 0; j < A->width - 1; ++j) { dst_truerow[j] = src_truerow[j]; }
+    if (A->width > 0) {
+      wi_t const j   = A->width - 1;
+      dst_truerow[j] = (dst_truerow[j] & ~mask_a) | (src_truerow[j] & mask_a);
+    }
   }
 
   for (rci_t i = 0; i < B->nrows; ++i) {
